@@ -12,7 +12,9 @@ META = {
               "optionally one vertex on a second chip whose capacities are a "
               "resource exception; <= 2 resources; <= 2 global and <= 1 "
               "per-chip reservations per resource (3 global in the "
-              "completeness units), in arbitrary relative position and list "
+              "completeness units; 2 per-chip ones where they are for the "
+              "chip with the exception, whose own range they may lie "
+              "anywhere in), in arbitrary relative position and list "
               "order; the exact combinations are the unit names in the "
               "evidence (larger combinations -- 3 vertices with 3 global or "
               "2+1 reservations, 2+2 reservations -- did not finish within "
@@ -38,7 +40,7 @@ META = {
 
 
 def h_alloc(ctx, nv, nres, ng, nl, alignment, second_chip, complete,
-            exc_first=False):
+            exc_first=False, local_on="A"):
     from rig.place_and_route.allocate.greedy import allocate
     from rig.place_and_route import Machine, Cores, SDRAM
     from rig.place_and_route.constraints import (
@@ -86,10 +88,14 @@ def h_alloc(ctx, nv, nres, ng, nl, alignment, second_chip, complete,
         for k in range(nl):
             s = ctx.int("ls", 0)
             e = ctx.int("le", 0)
-            ctx.assume(sand(s <= e, e <= cap[chipA][r]))
-            reserved[chipA][r].append((s, e))
+            # the chip the local reservations are for: the default chip or
+            # the one with the resource exception (which may have more of
+            # the resource than the default)
+            lchip = chipA if local_on == "A" else chipB
+            ctx.assume(sand(s <= e, e <= cap[lchip][r]))
+            reserved[lchip][r].append((s, e))
             constraints.append(
-                ReserveResourceConstraint(r, slice(s, e), chipA))
+                ReserveResourceConstraint(r, slice(s, e), lchip))
     # Reservations do not overlap one another (per chip, per resource)
     for c in cap:
         for r in resources:
@@ -172,14 +178,18 @@ def h_alloc(ctx, nv, nres, ng, nl, alignment, second_chip, complete,
 def units(tier, seed):
     us = []
 
-    def add(nv, nres, ng, nl, al, second, complete, exc_first=False, **kw):
-        name = "alloc nv=%d nres=%d g=%d l=%d align=%d chips=%d%s%s" % (
+    def add(nv, nres, ng, nl, al, second, complete, exc_first=False,
+            local_on="A", **kw):
+        name = "alloc nv=%d nres=%d g=%d l=%d align=%d chips=%d%s%s%s" % (
             nv, nres, ng, nl, al, 2 if second else 1,
             " complete" if complete else "",
-            " exception chip first" if exc_first else "")
+            " exception chip first" if exc_first else "",
+            " local reservations on the exception chip"
+            if local_on == "B" else "")
         us.append(Unit(name, h_alloc, dict(
             nv=nv, nres=nres, ng=ng, nl=nl, alignment=al,
-            second_chip=second, complete=complete, exc_first=exc_first),
+            second_chip=second, complete=complete, exc_first=exc_first,
+            local_on=local_on),
             witnesses=("allocated",), **kw))
 
     # soundness units
@@ -201,6 +211,10 @@ def units(tier, seed):
     add(2, 1, 1, 1, 1, True, True, split=5)
     # ... and with the exceptional chip allocated before the ordinary one
     # (soundness: in range; completeness: no spurious failure)
+    # reservations for the chip with the resource exception (anywhere in
+    # that chip's own range, which may reach beyond the default's)
+    add(1, 1, 0, 2, 1, True, False, local_on="B", split=4)
+    add(1, 1, 1, 1, 1, True, True, local_on="B", split=4)
     add(1, 1, 1, 0, 1, True, False, exc_first=True, split=4)
     add(1, 1, 1, 0, 1, True, True, exc_first=True, split=4)
     if tier == "thorough":
